@@ -93,7 +93,7 @@ def main():
                 except Exception: prev = {}
             for f in os.listdir(vdir):
                 src = os.path.join(vdir, f)
-                if os.path.isfile(src):
+                if os.path.isfile(src) and os.path.abspath(src) != os.path.abspath(os.path.join(dst, f)):
                     shutil.copy(src, os.path.join(dst, f))
             m = dict(meta)
             ev = dict(prev)
